@@ -360,6 +360,10 @@ ARRAYS = [
     ("min($a, $b)", "(PyVal.pmin {a} {b})"),
     ("int($x)", "(PyVal.int (PyVal.toInt {x}))"),
     ("isinstance($v, float)", "(PyVal.isFloat {v})"),
+    # numpy floating scalars are outside the value types of the model (PyVal: None / python int / python float / numpy
+    # integer; INFO assumptions): on those four the wider test decides the same
+    ("isinstance($v, (float, np.floating))", "(PyVal.isFloat {v})"),
+    ("isinstance($v, (np.floating, float))", "(PyVal.isFloat {v})"),
     ("isinstance($v, int)", "(PyVal.isInt {v})"),
 ]
 # calls of the model's own methods / properties (the translated definitions)
